@@ -13,6 +13,13 @@ def _c(tech, text, ref):
 
 
 CLAIMED = {
+    'C01': _c("composition: the honest registration+login harness function is interpreted as one program over the term domain (production MIR) with the stated dependency equations; sibling agreement of the compared terms",
+              "Decides the mirror-agreement clause for every input shape (absent/explicit identities, context, KSF instance) and suite analysed: the three MAC comparisons of an honest run compare "
+              "syntactically identical terms, the two session keys are one term, export key and server key at login are those of registration, production blinding is wired correctly, and no "
+              "step refuses an input on a crate-local length test. That the primitives compute those terms correctly (group laws, HKDF) is numerical and not decided.", "DESIGN.md section 5 C01"),
+    'C09': _c("term equality against an RFC 9807/9497 formula table (rfc.py, transcribed from the RFC, not the code) for every output; compiler-evaluated lengths vs RFC length formulas; finite-abstraction analysis of the integer encoder",
+              "Decides the formula clause: for all inputs and every suite analysed, each output is the RFC's formula over the code's own components (labels by content, order, prefix widths, HKDF/HMAC "
+              "wiring, message layouts, per-suite lengths). Byte values themselves are numerical and are not decided; that is what the vectors sample.", "DESIGN.md section 5 C09"),
     'C02': _c("term/guard analysis of the client steps over monomorphic MIR (password sinks, randomized-password formula, two dominating MAC comparisons, error mapping)",
               "Decides, for every path and suite analysed, that the password reaches the OPRF unmodified, that ClientLogin::finish can return Ok only after a successful envelope-MAC "
               "and server-MAC comparison whose keys descend from the randomized password, and that their failures map to InvalidLoginError. Structural clause of the property; "
